@@ -7,3 +7,13 @@ export GONOSUMDB='golang.org/x,github.com'
 export GOTOOLCHAIN=auto
 unset GOSUMDB
 export VERIF_ROOT=/verif
+# VERIF_REPO: the library tree the checks are built from. The registered commands always use /repo; scratch runs (seeded
+# change matrix on a clone) point it elsewhere: the module's replace directives are then redirected through -modfile.
+export VERIF_REPO="${VERIF_REPO:-/repo}"
+if [ "$VERIF_REPO" != "/repo" ]; then
+  _alt="/verif/.work/alt-$(echo "$VERIF_REPO" | tr '/' '_')"
+  mkdir -p /verif/.work
+  sed "s#=> /repo#=> $VERIF_REPO#" /verif/go.mod > "$_alt.mod"
+  cp /verif/go.sum "$_alt.sum"
+  export GOFLAGS="-mod=mod -modfile=$_alt.mod"
+fi
